@@ -33,7 +33,7 @@ EXTENDS Integers, Sequences, FiniteSets
 
 CONSTANT Graphs        \* sequence of graph records (see above)
 
-VARIABLES g,           \* index of the graph being explored
+VARIABLES g,           \* the graph being explored (one of Graphs)
           path,        \* the walk so far: sequence of [e |-> edge index, o |-> orientation]
           closed       \* TRUE once the walk has been closed into a cycle
 
@@ -120,11 +120,10 @@ GoodJunction(G, S, j) ==
           /\ Directed(G.variant) => x.h # y.h
 Touch(G, a, b) == \E x \in Ends({a}) : \E y \in Ends({b}) :
                      Junction(G, EndNode(G, x)) = Junction(G, EndNode(G, y))
-Connected(G, S) ==
-    LET R[i \in 0..Cardinality(S)] ==
-            IF i = 0 THEN {MinOf(S)}
-            ELSE R[i - 1] \cup {b \in S : \E a \in R[i - 1] : Touch(G, a, b)}
-    IN R[Cardinality(S)] = S
+RECURSIVE Grow(_, _, _, _)
+Grow(G, S, R, i) == IF i = 0 THEN R
+                    ELSE Grow(G, S, R \cup {b \in S : \E a \in R : Touch(G, a, b)}, i - 1)
+Connected(G, S) == Grow(G, S, {MinOf(S)}, Cardinality(S)) = S
 IsSimpleCycleDeg(G, S) == /\ Cardinality(S) >= 2
                           /\ \A j \in JunctionsOf(G, S) : GoodJunction(G, S, j)
                           /\ Connected(G, S)
@@ -137,12 +136,25 @@ Accept(G, seq) == /\ Len(seq) = G.K
                   /\ Ascending(seq)
                   /\ IsSimpleCycle(G, RangeOf(seq))
 
+\* Which graph definition verifies a header: the long-lived networks use cuckatoo above 29 edge
+\* bits and, up to 29, the cuckaroo tweak of the header version in force at that height (none
+\* from version 5 on); every other chain type uses cuckatoo only.
+SelectVariant(chain, version, eb) ==
+    IF chain \in {"mainnet", "testnet"}
+    THEN IF eb > 29 THEN "cuckatoo"
+         ELSE CASE version = 1 -> "cuckaroo"
+                [] version = 2 -> "cuckarood"
+                [] version = 3 -> "cuckaroom"
+                [] version = 4 -> "cuckarooz"
+                [] OTHER -> "none"
+    ELSE "cuckatoo"
+
 -----------------------------------------------------------------------------
 (* Path-extension machine: all simple K-cycles of every graph in Graphs.   *)
 
-G0 == Graphs[g]
+G0 == g
 
-Init == /\ g \in 1..Len(Graphs)
+Init == /\ g \in RangeOf(Graphs)
         /\ path = <<>>
         /\ closed = FALSE
 
@@ -167,9 +179,9 @@ Close == /\ ~closed
          /\ closed' = TRUE
          /\ UNCHANGED <<g, path>>
 
-Next == \/ \E e \in 0..G0.N - 1 : Start(e)
-        \/ \E e \in 0..G0.N - 1 : \E o \in Orients(G0) : Extend(e, o)
-        \/ Close
+StartAny == \E e \in 0..G0.N - 1 : Start(e)
+ExtendAny == \E e \in 0..G0.N - 1 : \E o \in Orients(G0) : Extend(e, o)
+Next == StartAny \/ ExtendAny \/ Close
 
 Spec == Init /\ [][Next]_vars
 
@@ -181,8 +193,7 @@ GraphOK(G) == /\ G.variant \in Variants
               /\ \A n \in 0..G.N - 1 : /\ U(G, n) \in 0..NodeCount(G.variant, G.N) - 1
                                        /\ V(G, n) \in 0..NodeCount(G.variant, G.N) - 1
 
-TypeOK == /\ g \in 1..Len(Graphs)
-          /\ GraphOK(G0)
+TypeOK == /\ GraphOK(G0)
           /\ closed \in BOOLEAN
           /\ Len(path) <= G0.K
           /\ \A i \in 1..Len(path) : path[i].e \in 0..G0.N - 1 /\ path[i].o \in Orients(G0)
